@@ -537,13 +537,203 @@ Proof.
   intros ND k IN. apply NoDup_count_occ'; assumption.
 Qed.
 
-Lemma callbacks_skipped_without_error : forall s, last_error s = false ->
-  cblog (connect_ok s) = cblog s /\ cbs (connect_ok s) = cbs s.
-Proof. intros s E. unfold connect_ok. rewrite E. simpl. auto. Qed.
+(* ------------------------------------------------------------------ what one step can do to the connection
+   bookkeeping: nothing, a successful connect, a close, or storing an error text *)
+Section Shape.
+Variable A : Type.
+Variable f : shared -> A.
+Hypothesis f_la : forall s v, f (set_last_attempt s v) = f s.
+Hypothesis f_rel : forall s, f (release s) = f s.
+Hypothesis f_acq : forall i s, f (acquire i s) = f s.
+Hypothesis f_acc : forall s v, f (set_acc_owner s v) = f s.
+Hypothesis f_refuse : forall s v, f (set_refuse s v) = f s.
+Hypothesis f_queue : forall s v, f (set_queue s v) = f s.
+Hypothesis f_rxbuf : forall s v, f (set_rxbuf s v) = f s.
+Hypothesis f_sendlog : forall s v, f (set_sendlog s v) = f s.
 
-Lemma none_callback_dropped : forall s k, last_error s = true -> In (k, CbNone) (cbs s) ->
-  ~ In (k, CbNone) (cbs (connect_ok s)).
+Definition shape (s r : shared) : Prop :=
+  f r = f s \/
+  (exists s0, f s0 = f s /\ f r = f (connect_ok s0)) \/
+  (exists s0, f s0 = f s /\ f r = f (close_conn s0)) \/
+  (exists s0, f s0 = f s /\ f r = f (set_last_error s0 true)).
+
+Lemma caller_step_shape : forall i now s c, shape s (fst (caller_step i now s c)).
 Proof.
-  intros s k E _ IN. unfold connect_ok in IN. rewrite E in IN. simpl in IN. apply filter_In in IN. destruct IN as [_ F]. discriminate.
+  intros i now s c. unfold Model.caller_step, shape.
+  assert (FR := f_run_ops _ f f_la).
+  assert (FF := f_fail_op _ f f_la f_rel).
+  assert (FN := f_next _ f f_la f_rel).
+  assert (FI := f_finish _ f f_la f_rel).
+  assert (FB := f_begin _ f f_la).
+  destruct (pc c) eqn:P.
+  - left. apply FR.
+  - left. destruct (connected s); simpl; [reflexivity|apply f_acc].
+  - unfold pop_refuse. destruct (refuse s) as [|[|] rf]; simpl.
+    + right; left. exists (set_acc_owner s None). split; [apply f_acc|reflexivity].
+    + right; right; right. exists (set_acc_owner (set_refuse s rf) None). split.
+      * rewrite f_acc. apply f_refuse.
+      * rewrite FF. reflexivity.
+    + right; left. exists (set_acc_owner (set_refuse s rf) None). split; [rewrite f_acc; apply f_refuse|reflexivity].
+  - left. destruct (cur c). { rewrite FR, f_rel. apply f_acq. }
+    destruct (begin_exch now (acquire i s)) as [[s2 p]|] eqn:E. { simpl. rewrite (FB _ _ _ _ E). apply f_acq. }
+    rewrite FF. apply f_acq.
+  - destruct (conn (acquire i s)); [|left; rewrite FF, f_rel; apply f_acq].
+    destruct (flush now (queue (acquire i s))) as [[|] q].
+    + right; right; left. exists (acquire i s). split; [apply f_acq|]. rewrite FF. apply f_rel.
+    + left. simpl. rewrite f_rxbuf, f_queue. apply f_acq.
+  - left. destruct (x_noreply (cur_x c)). { rewrite FI, f_sendlog. apply f_queue. }
+    destruct (try_frame md (x_n (cur_x c)) _) as [[r rst]|].
+    + rewrite FI, f_rxbuf, f_sendlog. apply f_queue.
+    + simpl. rewrite f_sendlog. apply f_queue.
+  - assert (TO : f (fst (fail_op now (release (set_last_error s true)) c)) = f (set_last_error s true)).
+    { rewrite FF. apply f_rel. }
+    destruct (queue s) as [|[a [d|]] q'].
+    + destruct (now <? e); [left; reflexivity|]. right; right; right. exists s. split; [reflexivity|exact TO].
+    + destruct (a <=? now).
+      * left. destruct (try_frame md _ _) as [[r rst]|].
+        { rewrite FI, f_rxbuf. apply f_queue. } { simpl. rewrite f_rxbuf. apply f_queue. }
+      * destruct (now <? e); [left; reflexivity|]. right; right; right. exists s. split; [reflexivity|exact TO].
+    + destruct (a <=? now).
+      * right; right; left. exists s. split; [reflexivity|]. rewrite FF. apply f_rel.
+      * destruct (now <? e); [left; reflexivity|]. right; right; right. exists s. split; [reflexivity|exact TO].
+  - left. apply FN.
+  - left. apply FR.
+  - left. reflexivity.
 Qed.
+End Shape.
+
+(* the bookkeeping the reconnect callbacks depend on *)
+Definition bk (s : shared) : nat * bool * bool * list (nat * cbkind) * list nat :=
+  (nconn s, connected s, last_error s, cbs s, cblog s).
+
+Lemma bk_shape : forall i now s c, shape _ bk s (fst (caller_step i now s c)).
+Proof. intros. apply caller_step_shape; intros; reflexivity. Qed.
+
+Lemma bk_connect_ok : forall s0, bk (connect_ok s0) =
+  (S (nconn s0), true, last_error s0,
+   if last_error s0 then filter (fun kc => cb_keeps (snd kc)) (cbs s0) else cbs s0,
+   if last_error s0 then cblog s0 ++ map fst (cbs s0) else cblog s0).
+Proof. intros s0. unfold connect_ok, bk. destruct (last_error s0) eqn:E; unfold call_callbacks; simpl; rewrite E; reflexivity. Qed.
+
+(* after a connection existed, either it is still up or an error text is stored (closeConnection stores one) *)
+Definition ready (s : shared) : Prop := (0 < nconn s)%nat -> connected s = true \/ last_error s = true.
+
+Lemma ready_of_bk : forall s r, bk r = bk s -> ready s -> ready r.
+Proof. intros s r E R. unfold bk in E. inversion E. unfold ready. rewrite H0, H1, H2. exact R. Qed.
+
+Lemma ready_shape : forall s r, shape _ bk s r -> ready s -> ready r.
+Proof.
+  intros s r [E|[(s0 & E0 & E)|[(s0 & E0 & E)|(s0 & E0 & E)]]] R.
+  - eapply ready_of_bk; eauto.
+  - rewrite bk_connect_ok in E. unfold bk in E. inversion E. unfold ready. intros _. left. assumption.
+  - unfold bk in E. simpl in E. inversion E. unfold ready. intros _. right. assumption.
+  - unfold bk in E. simpl in E. inversion E. unfold ready. intros _. right. assumption.
+Qed.
+
+Lemma poll_step_bk : forall nxt s p,
+  let r := fst (poll_step nxt s p) in
+  (nconn r = nconn s /\ connected r = connected s /\ (last_error s = true -> last_error r = true) /\ cblog r = cblog s /\
+   (cbs r = cbs s \/ (p = QStart /\ cbs r = cbs s ++ [(TRIGGER, CbTrue)]))) \/
+  (p = QConnect /\ exists s0, bk s0 = bk s /\ bk r = bk (connect_ok s0)).
+Proof.
+  intros nxt s p. unfold poll_step. destruct p; simpl; try (left; repeat split; auto; fail).
+  - left. repeat split; auto.
+  - left. destruct (connected s); simpl; repeat split; auto.
+  - unfold pop_refuse. destruct (refuse s) as [|[|] rf]; simpl.
+    + right. split; [reflexivity|]. exists (set_acc_owner s None). split; reflexivity.
+    + left. repeat split; auto.
+    + right. split; [reflexivity|]. exists (set_acc_owner (set_refuse s rf) None). split; reflexivity.
+Qed.
+
+Lemma ready_step : forall st x, ready (sh st) -> ready (sh (step st x)).
+Proof.
+  intros st [[t now] nxt] R. unfold Model.step. destruct t as [i|].
+  - destruct (nth_error (callers st) i) as [c|]; [|exact R].
+    destruct (caller_enabled i now (sh st) c); [|exact R].
+    pose proof (bk_shape i now (sh st) c) as S. destruct (caller_step i now (sh st) c) as [s' c']. simpl in *.
+    eapply ready_shape; eauto.
+  - destruct (poll_enabled (sh st) (poll st)); [|exact R].
+    pose proof (poll_step_bk nxt (sh st) (poll st)) as S. destruct (poll_step nxt (sh st) (poll st)) as [s' p']. simpl in *.
+    destruct S as [(N & C & E & _)|(_ & s0 & E0 & E)].
+    + unfold ready in *. rewrite N, C. intros G. destruct (R G) as [|L]; auto.
+    + eapply ready_shape; [|exact R]. right; left. exists s0. split; assumption.
+Qed.
+
+Lemma ready_run : forall sched st, ready (sh st) -> ready (sh (run st sched)).
+Proof. induction sched as [|x r IH]; intros st H; simpl; auto. apply IH. apply ready_step. exact H. Qed.
+
+Lemma ready_init : forall progs rf cb p, ready (sh (init progs rf cb p)).
+Proof. intros. unfold ready, init. simpl. lia. Qed.
+
+(* every step that establishes a connection while disconnected after an earlier connection (= a reconnect) calls every
+   registered callback exactly once, in registration order, and keeps those that returned True *)
+Lemma reconnect_runs_callbacks : forall st x, ready (sh st) ->
+  (0 < nconn (sh st))%nat -> connected (sh st) = false ->
+  nconn (sh (step st x)) <> nconn (sh st) ->
+  cblog (sh (step st x)) = cblog (sh st) ++ map fst (cbs (sh st)) /\
+  cbs (sh (step st x)) = filter (fun kc => cb_keeps (snd kc)) (cbs (sh st)) /\
+  connected (sh (step st x)) = true /\ nconn (sh (step st x)) = S (nconn (sh st)).
+Proof.
+  intros st [[t now] nxt] R G D NE.
+  assert (LE : last_error (sh st) = true). { destruct (R G) as [C|L]; [congruence|exact L]. }
+  assert (CONN : forall s0 r, bk s0 = bk (sh st) -> bk r = bk (connect_ok s0) ->
+            cblog r = cblog (sh st) ++ map fst (cbs (sh st)) /\
+            cbs r = filter (fun kc => cb_keeps (snd kc)) (cbs (sh st)) /\ connected r = true /\ nconn r = S (nconn (sh st))).
+  { intros s0 r E0 E. rewrite bk_connect_ok in E. unfold bk in E0, E. inversion E0. rewrite H2, LE in E. inversion E.
+    rewrite H3, H4, H0. auto. }
+  unfold Model.step in *. destruct t as [i|].
+  - destruct (nth_error (callers st) i) as [c|]; [|congruence].
+    destruct (caller_enabled i now (sh st) c); [|congruence].
+    pose proof (bk_shape i now (sh st) c) as S. destruct (caller_step i now (sh st) c) as [s' c']. simpl in *.
+    destruct S as [E|[(s0 & E0 & E)|[(s0 & E0 & E)|(s0 & E0 & E)]]].
+    + unfold bk in E. inversion E. congruence.
+    + eapply CONN; eauto.
+    + unfold bk in E0, E. simpl in E. inversion E0. inversion E. congruence.
+    + unfold bk in E0, E. simpl in E. inversion E0. inversion E. congruence.
+  - destruct (poll_enabled (sh st) (poll st)); [|congruence].
+    pose proof (poll_step_bk nxt (sh st) (poll st)) as S. destruct (poll_step nxt (sh st) (poll st)) as [s' p']. simpl in *.
+    destruct S as [(N & _)|(_ & s0 & E0 & E)]; [congruence|]. eapply CONN; eauto.
+Qed.
+
+(* ------------------------------------------------------------------ polling resumes: once the poll thread has started,
+   its trigger callback is registered for ever *)
+Definition trigger_inv (st : state) : Prop :=
+  match poll st with QNone | QStart => True | _ => In (TRIGGER, CbTrue) (cbs (sh st)) end.
+
+Lemma keeps_true : forall k l, In (k, CbTrue) l -> In (k, CbTrue) (filter (fun kc : nat * cbkind => cb_keeps (snd kc)) l).
+Proof. intros k l H. apply filter_In. split; [exact H|reflexivity]. Qed.
+
+Lemma trigger_shape : forall s r, shape _ bk s r -> In (TRIGGER, CbTrue) (cbs s) -> In (TRIGGER, CbTrue) (cbs r).
+Proof.
+  intros s r [E|[(s0 & E0 & E)|[(s0 & E0 & E)|(s0 & E0 & E)]]] H.
+  - unfold bk in E. inversion E. congruence.
+  - rewrite bk_connect_ok in E. unfold bk in E0, E. inversion E0. inversion E. rewrite H7. rewrite <- H4 in H.
+    destruct (last_error s0); [apply keeps_true|]; exact H.
+  - unfold bk in E0, E. simpl in E. inversion E0. inversion E. congruence.
+  - unfold bk in E0, E. simpl in E. inversion E0. inversion E. congruence.
+Qed.
+
+Lemma trigger_inv_step : forall st x, trigger_inv st -> trigger_inv (step st x).
+Proof.
+  intros st [[t now] nxt] T. unfold Model.step. destruct t as [i|].
+  - destruct (nth_error (callers st) i) as [c|]; [|exact T].
+    destruct (caller_enabled i now (sh st) c); [|exact T].
+    pose proof (bk_shape i now (sh st) c) as S. destruct (caller_step i now (sh st) c) as [s' c']. simpl in *.
+    unfold trigger_inv in *. simpl. destruct (poll st); auto; eapply trigger_shape; eauto.
+  - destruct (poll_enabled (sh st) (poll st)) eqn:EN; [|exact T].
+    unfold trigger_inv in *. unfold poll_step.
+    destruct (poll st) eqn:Q; simpl in *; try discriminate.
+    + destruct nxt; simpl; apply in_or_app; right; left; reflexivity.
+    + destruct nxt; exact T.
+    + destruct (connected (sh st)); simpl; [destruct nxt|]; exact T.
+    + assert (K : forall s0, cbs s0 = cbs (sh st) -> In (TRIGGER, CbTrue) (cbs (connect_ok s0))).
+      { intros s0 E. unfold connect_ok. destruct (last_error s0); simpl; rewrite E; [apply keeps_true|]; exact T. }
+      unfold pop_refuse. destruct (refuse (sh st)) as [|[|] rf]; simpl; destruct nxt; simpl; try exact T; apply K; reflexivity.
+Qed.
+
+Lemma trigger_inv_run : forall sched st, trigger_inv st -> trigger_inv (run st sched).
+Proof. induction sched as [|x r IH]; intros st H; simpl; auto. apply IH. apply trigger_inv_step. exact H. Qed.
+
+Lemma trigger_inv_init : forall progs rf cb p, trigger_inv (init progs rf cb p).
+Proof. intros. unfold trigger_inv, init. simpl. destruct p; exact I. Qed.
 End L.
